@@ -3,7 +3,7 @@
 (* Family) and, for each program, every sequence of start / stop / restart / run(ev) calls until the reachable    *)
 (* states are exhausted (guard/handler scripts are cyclic, so the state space of one program is finite).           *)
 EXTENDS Hfsm, SequencesExt
-CONSTANT Family      \* "flat2q" | "flat2" | "flat3" | "nestq" | "nest" | "reent" | "reent_enter"
+CONSTANT Family      \* "flat2q" | "flat2" | "flat3" | "dupq" | "dup" | "term0q" | "term0" | "simmix" | "nestq" | "nest" | "reent" | "reent_enter"
 CONSTANT MaxDepth    \* 0 = until exhaustion, otherwise maximal number of calls
 
 VARIABLE depth
@@ -43,10 +43,14 @@ SeqsUpTo(X, n) == UNION {[1..k -> X] : k \in 0..n}
 FlatRouteChoices == {R(ev, to, gt, 1) : ev \in {0, 1, 2}, to \in {2, 0}, gt \in {0, 1}}
 FlatRouteChoicesQ == {R(ev, to, gt, 1) : ev \in {0, 1}, to \in {2, 0}, gt \in {0, 1}}
 FlatHandlers == { <<>>, <<Hd(1, <<-1, 3>>)>>, <<Hd(0, <<2, -1>>)>>, <<Hd(2, <<3>>), Hd(0, <<-1, 2>>)>> }
-Flat(RouteSet, n) == { Build(<< M(1, << S(1, 0, rs, hd),
+DupHandlers == { <<Hd(1, <<3>>), Hd(1, <<-1, 2>>)>>,        \* registered twice for the same event: the second replaces the first
+                 <<Hd(0, <<-1>>), Hd(0, <<2, -1>>)>> }
+Term0Flat == << S(0, 0, <<R(1, 1, 1, 0)>>, <<Hd(2, <<-1, 2>>)>>) >>     \* user-defined state 0 with a handler and a guarded route out
+Flat(RouteSet, n, Hs, t0) ==
+           { Build(<< M(1, << S(1, 0, rs, hd),
                               S(2, 0, <<R(1, 1, 0, 0), R(2, 3, 0, 1)>>, <<>>),
-                              S(3, 0, <<R(0, 1, 2, 0), R(2, 0, 0, 0)>>, <<>>) >>) >>, <<>>, 2)
-             : rs \in SeqsUpTo(RouteSet, n), hd \in FlatHandlers }
+                              S(3, 0, <<R(0, 1, 2, 0), R(2, 0, 0, 0)>>, <<>>) >> \o t0) >>, <<>>, 2)
+             : rs \in SeqsUpTo(RouteSet, n), hd \in Hs }
 
 (* ---- nested family: root (2 states) -> machine 2 (2 states) -> machine 3 (1 state + optional user terminal) ---- *)
 Menu(s, o) == { [rs |-> <<R(1, o, 0, 1)>>, hd |-> <<>>],
@@ -58,7 +62,9 @@ MenuQ(s, o) == { [rs |-> <<R(1, o, 0, 1), R(2, 0, 0, 0)>>, hd |-> <<>>],
 Leaf == { [rs |-> <<R(1, 0, 0, 1)>>, hd |-> <<>>],
           [rs |-> <<R(0, 0, 1, 0)>>, hd |-> <<>>],
           [rs |-> <<R(2, 1, 0, 0), R(1, 0, 0, 0)>>, hd |-> <<Hd(2, <<-1, 0>>)>>] }
-TermStates == { <<>>, <<[id |-> 0, en |-> 1, ex |-> 1, sub |-> 0, rs |-> <<>>, hd |-> <<>>]>> }
+RichTerm == << S(0, 0, <<R(2, 1, 1, 1)>>, <<Hd(1, <<-1, 1>>)>>) >>       \* user-defined state 0 with a handler and a guarded route out
+PlainTerm == << S(0, 0, <<>>, <<>>) >>
+Leaf1 == {CHOOSE x \in Leaf : TRUE}
 Nest3(a1, a2, b1, b2, c1, p1, p2, t, re) ==
   Build(<< M(1, << S(1, IF p1 = 1 THEN 2 ELSE 0, a1.rs, a1.hd), S(2, IF p1 = 2 THEN 2 ELSE 0, a2.rs, a2.hd) >>),
            M(1, << S(1, IF p2 = 1 THEN 3 ELSE 0, b1.rs, b1.hd), S(2, IF p2 = 2 THEN 3 ELSE 0, b2.rs, b2.hd) >> \o t),
@@ -66,6 +72,9 @@ Nest3(a1, a2, b1, b2, c1, p1, p2, t, re) ==
 Nest(Mn(_, _), Lf, Ps, Ts) == { Nest3(a1, a2, b1, b2, c1, p1, p2, t, <<>>)
                             : a1 \in Mn(1, 2), a2 \in Mn(2, 1), b1 \in Mn(1, 2), b2 \in Mn(2, 1), c1 \in Lf,
                               p1 \in Ps, p2 \in Ps, t \in Ts }
+
+MQ1(s, o) == CHOOSE x \in MenuQ(s, o) : TRUE
+Term0Q == { Nest3(MQ1(1, 2), MQ1(2, 1), MQ1(1, 2), MQ1(2, 1), CHOOSE x \in Leaf : TRUE, p1, p2, RichTerm, <<>>) : p1 \in {1, 2}, p2 \in {1, 2} }
 
 (* ---- re-entrant attempts: one fixed nested program, every callback kind tries every call on its own machine ---- *)
 ReBase(re) == Nest3([rs |-> <<R(1, 2, 1, 1), R(2, 0, 0, 1)>>, hd |-> <<Hd(2, <<-1, 2>>)>>],
@@ -89,11 +98,16 @@ ReSites == { [m |-> x.m, k |-> x.k, id |-> x.id, t |-> x.m] : x \in OwnSites } \
 Reent(sites) == { ReBase(<< [m |-> x.m, k |-> x.k, id |-> x.id, c |-> c, t |-> x.t] >>) : x \in sites, c \in ReCalls }
 
 Programs ==
-  CASE Family = "flat2q" -> Flat(FlatRouteChoicesQ, 2)
-    [] Family = "flat2" -> Flat(FlatRouteChoices, 2)
-    [] Family = "flat3" -> Flat(FlatRouteChoices, 3)
-    [] Family = "nestq" -> Nest(MenuQ, {CHOOSE x \in Leaf : TRUE}, {1, 2}, {x \in TermStates : x # <<>>})
-    [] Family = "nest"  -> Nest(Menu, Leaf, {1, 2}, TermStates)
+  CASE Family = "flat2q" -> Flat(FlatRouteChoicesQ, 2, FlatHandlers, <<>>)
+    [] Family = "flat2" -> Flat(FlatRouteChoices, 2, FlatHandlers, <<>>)
+    [] Family = "flat3" -> Flat(FlatRouteChoices, 3, FlatHandlers, <<>>)
+    [] Family = "dupq"  -> Flat(FlatRouteChoicesQ, 1, DupHandlers, Term0Flat)
+    [] Family = "dup"   -> Flat(FlatRouteChoices, 2, DupHandlers, Term0Flat)
+    [] Family = "nestq" -> Nest(MenuQ, Leaf1, {1, 2}, {PlainTerm})
+    [] Family = "nest"  -> Nest(Menu, Leaf, {1, 2}, {<<>>, PlainTerm})
+    [] Family = "term0q" -> Term0Q
+    [] Family = "term0" -> Nest(MenuQ, Leaf1, {1, 2}, {RichTerm})
+    [] Family = "simmix" -> Nest(MenuQ, Leaf1, {1, 2}, {PlainTerm, RichTerm}) \cup Flat(FlatRouteChoicesQ, 2, DupHandlers, Term0Flat)
     [] Family = "reent" -> Reent(ReSites)
     [] Family = "reent_enter" -> Reent({x \in ReSites : x.k = "E"})
 
